@@ -83,6 +83,12 @@ type Env struct {
 
 	Opts EnvOptions
 
+	// Results, when set, accumulates a digest of every transaction and block result (see ResultLog).
+	Results *ResultLog
+
+	// BetweenBlocks, when set, runs once between the end-block and begin-block halves of the next NextBlock.
+	BetweenBlocks func(ctx sdk.Context) sdk.Context
+
 	// Trace, when set, records every transaction and block step executed on the main path (conformance pass).
 	Trace *Tracer
 }
